@@ -192,6 +192,9 @@ func discharge(obls []*Obligation, workDir string, tier string, jobs int) {
 }
 
 func finishObl(o *Obligation, file string) {
+	if os.Getenv("EVYVC_PROGRESS") != "" {
+		fmt.Fprintf(os.Stderr, "[%s] %-8s %6.1fs %s p%d (%s)\n", time.Now().Format("15:04:05"), o.Status, o.Secs, o.Name, o.Path, o.Solver)
+	}
 	{
 		{
 			if o.Status == "sat" && !o.Cover {
